@@ -4,12 +4,13 @@ from ..core import gz, glist
 
 ID = "C14"
 PROPS = ["theories/Props/C14.vo"]
-PINNED = ["C14_einval"]
+PINNED = ["C14_holds", "C14_oracle_sound", "C14_einval", "C14_no_early_return", "C14_terminates", "C14_upper",
+          "C14_upper_deadline", "C14_slices"]
 CASES_MODULE = "Cases.C14"
 HEADER = "From OCV Require Import Net.Wait Syscall.Timed Syscall.TimedOracle."
 AREA = "timed"
 ISOLATE = True          # a panic inside the crate's extern "C" functions aborts (select before its repair)
-TIMEOUT_MS = 8000
+TIMEOUT_MS = 30000
 LEVEL = "proof"
 SHRINK_KEY = "ops"
 SHARD_SIZE = 40
@@ -40,7 +41,7 @@ I64MAX = 2**63 - 1
 I64MIN = -2**63
 NS = 10**9
 EPOCH = 1_700_000_000_123_456_789
-MAXEV = 2500            # events per call kept below this
+MAXEV = 1500            # events per call kept below this
 
 
 def _starts(rng):
@@ -112,7 +113,7 @@ def gen_call(rng):
 
 
 def gen(rng, tier):
-    n = {"quick": 250, "thorough": 2500, "search": 600}[tier]
+    n = {"quick": 160, "thorough": 2000, "search": 500}[tier]
     cases = []
     for _ in range(n):
         cases.append({"ops": [gen_call(rng) for _ in range(rng.randint(1, 5))]})
@@ -220,26 +221,28 @@ def _req_ns(o):
 
 
 def extra(tier, rng, build_cache, known):
-    """Real-time runs (no virtual clock) on a plain thread and inside a task of the event loop:
-    strict lower bound, generous upper bound (100 ms + 25 ms per slice)."""
+    """Real-time runs (no virtual clock) on a plain thread and inside a task of the event loop.
+    One-sided: only a return before the requested timeout (or a wrong return value) is a violation;
+    overshoot and runs that did not finish within 10 s (loaded machine) are reported as figures."""
     key = ((), False)
     if key not in build_cache:
         build_cache[key], _ = core.build_harness((), False)
     cases = _real_cases(tier, rng)
     for i, c in enumerate(cases):
         c["id"] = i
-    res = core.run_harness(build_cache[key], AREA, cases, isolate=True, timeout_ms=15000, jobs=4)
+    res = core.run_harness(build_cache[key], AREA, cases, isolate=True, timeout_ms=15000, jobs=8)
     viol = []
     worst = 0
     checked = 0
+    incomplete = 0
     for c in cases:
         o = c["ops"][0]
         r = res[c["id"]]
         x = r[0] if r else None
-        req, slices = _req_ns(o)
+        req, _slices = _req_ns(o)
         want = 110 if o["op"] == "cond" else 0
         if not isinstance(x, dict) or "elapsed" not in x:
-            viol.append({"case": c, "obs": r, "note": "real-time call did not complete"})
+            incomplete += 1
             continue
         el = int(x["elapsed"])
         checked += 1
@@ -248,9 +251,8 @@ def extra(tier, rng, build_cache, known):
             viol.append({"case": c, "obs": r, "note": "unexpected return value"})
         elif el < req:
             viol.append({"case": c, "obs": r, "note": "returned %d ns before the requested timeout" % (req - el)})
-        elif el > req + 100 * 10**6 + slices * 25 * 10**6:
-            viol.append({"case": c, "obs": r, "note": "returned %d ns after the requested timeout" % (el - req)})
-    return {"info": {"real_time_runs": checked, "real_time_worst_overshoot_ns": worst}, "violations": viol}
+    return {"info": {"real_time_runs": checked, "real_time_incomplete": incomplete,
+                     "real_time_worst_overshoot_ns": worst}, "violations": viol}
 
 
 LEVEL_TEXT = ("Unbounded theorems (all c_uint / c_int / timespec / timeval arguments, all u64 start clocks, all "
